@@ -40,7 +40,11 @@ def intercalate (sep : S) : List S → S
 def fifoSuffix : S := ['.', 'f', 'i', 'f', 'o']
 def basenameS : S := modBasename
 
-/-- replacement text for one placeholder; `none` = `Failf` -/
+/-- `prependParentDirPath` indexes `path[0]`: on an empty path (a modifier chain that deletes
+everything) the Go code panics, which ends the workflow like `Failf` does -/
+def prependParent? (p : S) : Option S := if p = [] then none else some (prependParent p)
+
+/-- replacement text for one placeholder; `none` = `Failf` (or a panic, see `prependParent?`) -/
 def replacement (env : Env) (ph : PH) : Option S :=
   let name := ph.name
   let mods := ph.mods
@@ -56,19 +60,20 @@ def replacement (env : Env) (ph : PH) : Option S :=
       | none => none
       | some p =>
         let r := applyPathModifiers (p ++ fifoSuffix) mods
-        some (if mods.contains basenameS then r else prependParent r)
+        if mods.contains basenameS then some r else prependParent? r
     else if info.typ = ['i'] then
       match env.inPaths.lookup name with
       | none => none
       | some p =>
         if info.join && info.joinSep ≠ [] then
           let members := (env.subs.lookup name).getD []
-          some (intercalate info.joinSep (members.map fun m => prependParent (applyPathModifiers m mods)))
+          let ms := members.map fun m => applyPathModifiers m mods
+          if ms.any (· == []) then none else some (intercalate info.joinSep (ms.map prependParent))
         else if p = [] then none
         else
           let base := if env.inStream.contains name then p ++ fifoSuffix else p
           let r := applyPathModifiers base mods
-          some (if mods.contains basenameS then r else prependParent r)
+          if mods.contains basenameS then some r else prependParent? r
     else if info.typ = ['p'] then
       match env.params.lookup name with
       | none => none
